@@ -224,6 +224,15 @@ def search_hadronic(chk, r, n, max_pto):
 
     grid = cards.default_grid(8, 0.01)
     plans = []
+    # far above the mass the threshold sits next to x = 1: z = 1 - 2^-k gives Q2 (1-z)/z = 4 m^2 exactly
+    # for Q2 = 4 m^2 (2^k - 1) (Q2/m2 = 32764 and 131068)
+    for k_, m_ in ((13, 1.5), (15, 0.75)):
+        z_, Q2_ = 1.0 - 2.0**-k_, 4.0 * m_ * m_ * (2**k_ - 1)
+        F = fractions.Fraction
+        assert Q2_ * (1 - z_) / z_ == 4 * m_ * m_ and F(Q2_) * (1 - F(z_)) / F(z_) == 4 * F(m_) * F(m_)
+        plans.append((z_, Q2_, m_, "on"))
+        plans.append(((z_ + 1.0) / 2.0, Q2_, m_, "below"))
+    n += len(plans)
     for Q2, m, z in boundary_points(r, max(2, n // 3)):
         plans.append((z, Q2, m, "on"))
         plans.append((min(0.95, z * 1.3), Q2, m, "below"))
@@ -310,12 +319,18 @@ def search_cc(chk, r, n, thorough):
         x = float(r.uniform(lam, min(1.0, lam * 1.5))) if beyond else float(max(r.uniform(0.02, 0.9) * lam, 0.0105))  # inside the grid
         if beyond and r.random() < 0.4:
             x = float(lam)  # chi == 1 up to rounding
+        on_node = False
+        if i % 3 == 0 or i % 4 == 3:
+            # Bjorken x exactly on a node of the interpolation grid (the slow-rescaling point is not)
+            nodes = [float(g) for g in grid[:-1] if (g * (1 + m * m / Q2) >= 1.0) == beyond and g >= 0.0105]
+            if nodes:
+                x, on_node = float(r.choice(nodes)), True
         chi = x * (1 + m * m / Q2)
         pto = 0 if not beyond else r.choice([0, 1])
         name = f"{kind}_{fl}"
         t = cards.theory(PTO=pto, FNS="FFNS", NfFF=nfff, mc=1.51, mb=4.92, mt=30.0 if fl == "top" else 172.5, IC=0)
         o = cards.obs({name: [dict(x=x, Q2=Q2)]}, prDIS="CC", ProjectileDIS=r.choice(["neutrino", "antineutrino", "electron", "positron"]), interpolation_xgrid=grid, interpolation_polynomial_degree=3)
-        case = dict(obs=name, x=x, Q2=Q2, m=m, chi=chi, PTO=pto, projectile=o["ProjectileDIS"])
+        case = dict(obs=name, x=x, x_on_grid_node=on_node, Q2=Q2, m=m, chi=chi, PTO=pto, projectile=o["ProjectileDIS"])
         try:
             runner = yadism.Runner(t, o)
             out = runner.get_result()
